@@ -80,7 +80,7 @@ def main(argv):
         return 2
     for name, c in ctx.corr.items():
         if c['mismatches'] and not c.get('explained'):
-            ctx.brk('correspondence', name, json.dumps(c['first_mismatch'], default=str)[:600])
+            ctx.brk('correspondence', name, json.dumps(c['first_mismatch'], default=str)[:60000])
     violations, known_reported = core.verdict(ctx)
     core.write_evidence(ctx, violations, known_reported, checker_cmd)
     print('%s %s seed=%d: theorems %d/%d, cases %d (%d distinct non-trivial), violations %d, known %s, %.1fs'
